@@ -90,7 +90,12 @@ pub fn explore<M: SmModel>(m: &M, lim: &Limits, start: std::time::Instant) -> Sm
                     n += 1;
                     if let Some(ns) = m.step(s, a, &mut local) {
                         let k = m.key(&ns);
-                        succ.push((k, ns));
+                        // states of earlier levels are dropped at once (the set is only read here; it
+                        // is extended in the sequential phase below), which keeps the level's memory
+                        // proportional to its new states instead of its transitions
+                        if !seen.contains(&k) {
+                            succ.push((k, ns));
+                        }
                     }
                 }
                 (succ, local, n)
@@ -117,6 +122,14 @@ pub fn explore<M: SmModel>(m: &M, lim: &Limits, start: std::time::Instant) -> Sm
             growth = this / last_level_s;
         }
         last_level_s = this;
+        // resident-set cap (the sandbox has no swap): stop expanding rather than be killed
+        let rss_gb = std::fs::read_to_string("/proc/self/statm").ok().and_then(|t| t.split_whitespace().nth(1).and_then(|p| p.parse::<f64>().ok())).map(|pages| pages * 4096.0 / 1e9).unwrap_or(0.0);
+        let rss_cap = std::env::var("VERIF_RSS_CAP_GB").ok().and_then(|v| v.parse::<f64>().ok()).unwrap_or(36.0);
+        if rss_gb > rss_cap {
+            capped = Some(format!("resident set {rss_gb:.1} GB above the cap of {rss_cap:.0} GB after level {depth}; levels <= {depth} are complete"));
+            frontier = next;
+            break;
+        }
         if states > lim.max_states {
             capped = Some(format!("state cap {} exceeded after level {depth}; levels <= {depth} are complete", lim.max_states));
             frontier = next;
